@@ -1,4 +1,5 @@
 CONSTANTS
+  MaxFaults = 2
   MaxCalls = 4
 INIT Init
 NEXT Next
